@@ -192,12 +192,12 @@ class RecordingBackend(AsyncResultBackend):
 HOOKS = ("pre_send", "post_send", "pre_execute", "post_execute", "on_error", "post_save")
 
 
-def build_middlewares(specs: List[Dict[str, Any]], tr: Trace) -> List[TaskiqMiddleware]:
+def build_middlewares(specs: List[Dict[str, Any]], tr: Trace, base: int = 0) -> List[TaskiqMiddleware]:
     """specs[i] = {hook: {"async": bool, "fail_on": [msg idx], "stamp": bool}}.
     Only listed hooks are overridden.  A `stamp`ing pre_* hook returns a *copy* of the
     message with label `seen` extended by its own index (so order is observable in data)."""
     out = []
-    for mi, hooks in enumerate(specs):
+    for mi, hooks in enumerate(specs, start=base):
         ns: Dict[str, Any] = {}
         base_ns: Dict[str, Any] = {}
         for hook, hs in hooks.items():
@@ -206,8 +206,8 @@ def build_middlewares(specs: List[Dict[str, Any]], tr: Trace) -> List[TaskiqMidd
             f = _mk_hook(hook, mi, hs.get("async"), set(hs.get("fail_on", ())), bool(hs.get("stamp")), tr)
             # "inherited": the hook is defined on an intermediate middleware class, the registered class only inherits it
             (base_ns if hs.get("inherited") else ns)[hook] = f
-        base = type(f"MWBase{mi}", (TaskiqMiddleware,), base_ns) if base_ns else TaskiqMiddleware
-        out.append(type(f"MW{mi}", (base,), ns)())
+        parent = type(f"MWBase{mi}", (TaskiqMiddleware,), base_ns) if base_ns else TaskiqMiddleware
+        out.append(type(f"MW{mi}", (parent,), ns)())
     return out
 
 
@@ -360,12 +360,23 @@ def register_timing_tasks(broker: ScriptedBroker, tr: Trace, sc: Dict[str, Any])
     broker._vt_shared.register_task(shtask, task_name="shtask")  # type: ignore[attr-defined]
     broker._vt_late = lambda: broker.register_task(latask, task_name="latask")  # type: ignore[attr-defined]
 
+    async def dyntask(i: int) -> Any:
+        return await atask(i)
+
+    dyntask.__module__ = __name__
+
+    def _register_dyn() -> None:
+        tr.add("registered")
+        broker.register_task(dyntask, task_name="dyntask")
+
+    broker._vt_register_dyn = _register_dyn  # type: ignore[attr-defined]
+
 
 def build_script(broker: ScriptedBroker, sc: Dict[str, Any]) -> List[Any]:
     script = []
     for i, sp in enumerate(sc["msgs"]):
         kind = sp["kind"]
-        tname = sp.get("task") or {"sync": "stask", "shared": "shtask", "late": "latask"}.get(kind, "atask")
+        tname = sp.get("task") or {"sync": "stask", "shared": "shtask", "late": "latask", "dyn": "dyntask"}.get(kind, "atask")
         labels = dict(sp.get("labels") or {})
         if sp.get("timeout") is not None:
             labels["timeout"] = sp["timeout"]
@@ -422,6 +433,8 @@ def run_worker(sc: Dict[str, Any], register: Optional[Callable[..., None]] = Non
                 tr.add("stop")
                 ev.set()
             loop.call_at(sc["stop"], _stop)
+        if sc.get("register_at") is not None and hasattr(b, "_vt_register_dyn"):
+            loop.call_at(sc["register_at"], b._vt_register_dyn)   # a task registered while the worker is running
         lt = asyncio.ensure_future(r.listen(ev))
         done, _ = await asyncio.wait({lt}, timeout=sc.get("horizon", 100.0))
         if lt in done:
@@ -480,7 +493,7 @@ def timeout_verdict(sp: Dict[str, Any]) -> str:
     """'none' | 'ok' (finishes before the timeout) | 'tie' (finishes exactly at it: either outcome) | 'timeout'.
     The asynchronous clean-up is part of the coroutine the worker waits for."""
     to = sp.get("timeout")
-    if to is None or sp["kind"] not in ("async", "shared", "late"):
+    if to is None or sp["kind"] not in ("async", "shared", "late", "dyn"):
         return "none"
     total = NEVER if sp.get("out") == "never" else sp["dur"] + sp.get("cleanup", 0)
     if abs(total - float(to)) < 1e-9:
@@ -499,7 +512,7 @@ def per_message(trace: List[List[Any]]) -> Dict[Any, List[Any]]:
 
 
 def is_good(sp: Dict[str, Any]) -> bool:
-    return sp["kind"] in ("async", "sync", "shared", "late")
+    return sp["kind"] in ("async", "sync", "shared", "late", "dyn")
 
 
 def brief_trace(trace: List[List[Any]], limit: int = 60) -> List[Any]:
